@@ -671,6 +671,35 @@ impl<'a, 'ast> Visit<'ast> for Rewriter<'a> {
         }
     }
 
+    fn visit_expr_assign(&mut self, a: &'ast ExprAssign) {
+        // R-destructure: `(a, b) = E;` (destructuring assignment to plain variables) is
+        // `{ let __vx_t = E; a = __vx_t.0; b = __vx_t.1; }` -- the language's own desugaring
+        if let Expr::Tuple(t) = &*a.left {
+            let names: Vec<String> = t
+                .elems
+                .iter()
+                .filter_map(|e| match e {
+                    Expr::Path(p) if p.path.get_ident().is_some() => Some(p.path.get_ident().unwrap().to_string()),
+                    _ => None,
+                })
+                .collect();
+            if names.len() == t.elems.len() && !names.is_empty() {
+                self.visit_expr(&a.right);
+                let whole = self.r(a.span());
+                let rr = self.r(a.right.span());
+                let mut pieces = vec![Piece::Lit("{ let __vx_t = ".into()), Piece::Src(rr.0, rr.1), Piece::Lit("; ".into())];
+                for (k, n) in names.iter().enumerate() {
+                    pieces.push(Piece::Lit(format!("{} = __vx_t.{}; ", n, k)));
+                }
+                pieces.push(Piece::Lit("}".into()));
+                self.edits.replace(whole, pieces, "R-destructure");
+                self.note("R-destructure", a.span());
+                return;
+            }
+        }
+        visit::visit_expr_assign(self, a);
+    }
+
     fn visit_expr_binary(&mut self, b: &'ast ExprBinary) {
         // children first (their edits nest inside ours)
         self.visit_expr(&b.left);
